@@ -238,6 +238,7 @@ def run_scenario(mod, sc: dict, keep: bool = False) -> Outcome:
     if ARGFORM != "int":
         ctx.probe("integer-arguments-as-numpy-scalars")
     knobs_restore = lower_tuning_constants(sc.get("knobs"), ctx)
+    _set_numba_threads(sc.get("numba_threads") or 1, ctx)
     import signal
     import threading
 
@@ -319,12 +320,31 @@ def run_scenario(mod, sc: dict, keep: bool = False) -> Outcome:
             signal.signal(signal.SIGALRM, old_handler)
         for modobj, name, value in knobs_restore:
             setattr(modobj, name, value)
+        _set_numba_threads(1, None)
         try:
             os.chdir(_HOME_CWD)
         except OSError:
             pass
         ctx.close()
     return out
+
+
+def _set_numba_threads(k, ctx) -> None:
+    """Caller-level code may consult the number of numba threads (to size a partition, to pick a kernel).  The streaming
+    properties run on 1 thread; a scenario may ask for more where the worker's NUMBA_NUM_THREADS allows it (C16, C07: 4).
+    Race freedom of the kernels themselves is C19's business."""
+    if os.environ.get("VERIF_PROP_IS_C19"):
+        return
+    try:
+        import numba
+
+        k = max(1, min(int(k), int(numba.config.NUMBA_NUM_THREADS)))
+        if numba.get_num_threads() != k:
+            numba.set_num_threads(k)
+        if ctx is not None and k > 1:
+            ctx.probe("numba-threads>1")
+    except Exception:  # noqa: BLE001,S110 - numba not imported yet / not available: nothing to set
+        pass
 
 
 def lower_tuning_constants(value, ctx) -> list:
